@@ -18,7 +18,10 @@
 use core::sync::atomic::AtomicUsize;
 #[cfg(arc_swap_verif)]
 use arc_swap_verif_rt::atomic::AtomicUsize;
+#[cfg(not(arc_swap_verif))]
 use core::sync::atomic::fence;
+#[cfg(arc_swap_verif)]
+use arc_swap_verif_rt::atomic::fence;
 use core::sync::atomic::Ordering::*;
 
 #[cfg(arc_swap_verif)]
